@@ -61,11 +61,13 @@ func (p *parser) parseType(generic bool) ddptypes.Type {
 		case token.ZAHL, token.KOMMAZAHL, token.BUCHSTABE, token.VARIABLE:
 			typ = p.tokenTypeToType(p.previous().Type)
 		case token.BYTE, token.WAHRHEITSWERT, token.TEXT:
+			// remember the type before looking at what follows (the cursor does not move at the end of the file)
+			elementType := p.tokenTypeToType(p.previous().Type)
 			if !p.matchAny(token.LISTE) {
-				typ = p.tokenTypeToType(p.previous().Type)
+				typ = elementType
 				break
 			}
-			typ = ddptypes.ListType{ElementType: p.tokenTypeToType(p.peekN(-2).Type)}
+			typ = ddptypes.ListType{ElementType: elementType}
 		case token.ZAHLEN:
 			p.consumeSeq(token.LISTE)
 			typ = ddptypes.ListType{ElementType: ddptypes.ZAHL}
@@ -177,19 +179,21 @@ func (p *parser) parseReferenceType(generic bool) (ddptypes.Type, bool) {
 		case token.ZAHL, token.KOMMAZAHL, token.BUCHSTABE, token.VARIABLE:
 			typ, isRef = p.tokenTypeToType(p.previous().Type), false
 		case token.BYTE, token.WAHRHEITSWERT, token.TEXT:
+			// remember the type before looking at what follows (the cursor does not move at the end of the file)
+			elementType := p.tokenTypeToType(p.previous().Type)
 			if p.matchAny(token.LISTE) {
-				typ, isRef = ddptypes.ListType{ElementType: p.tokenTypeToType(p.peekN(-2).Type)}, false
+				typ, isRef = ddptypes.ListType{ElementType: elementType}, false
 			} else if p.matchAny(token.LISTEN) {
 				if !p.consumeSeq(token.REFERENZ) {
 					// report the error on the REFERENZ token, but still advance
 					// because there is a valid token afterwards
 					p.advance()
 				}
-				typ, isRef = ddptypes.ListType{ElementType: p.tokenTypeToType(p.peekN(-3).Type)}, true
+				typ, isRef = ddptypes.ListType{ElementType: elementType}, true
 			} else if p.matchAny(token.REFERENZ) {
-				typ, isRef = p.tokenTypeToType(p.peekN(-2).Type), true
+				typ, isRef = elementType, true
 			} else {
-				typ, isRef = p.tokenTypeToType(p.previous().Type), false
+				typ, isRef = elementType, false
 			}
 		case token.ZAHLEN:
 			if p.matchAny(token.LISTE) {
